@@ -173,6 +173,28 @@ def run_matcher_check(ctx, pid, known_filter=None):
                     crashes.append((l, part))
     n_m = len([l for l in lines if l.startswith("M ")])
     n_x = len([l for l in lines if l.startswith("X ")])
+    # what the cases look like (descriptive only)
+    from collections import Counter
+    dist = dict(representations=Counter(), configurations=Counter(), haystack_len=Counter(), needle_len=Counter(), outcome=Counter())
+
+    def bucket(n):
+        for b in (0, 1, 2, 4, 8, 16, 64, 256, 4096, 65536):
+            if n <= b:
+                return "<=%d" % b
+        return ">65536"
+    for l in lines:
+        if not l.startswith("M "):
+            continue
+        f = fields(l)
+        dist["representations"][f.get("hr", "?") + "/" + f.get("nr", "?")] += 1
+        dist["configurations"][f.get("cfg", "?")] += 1
+        dist["haystack_len"][bucket(0 if f.get("hay", "-") == "-" else f["hay"].count(",") + 1)] += 1
+        dist["needle_len"][bucket(0 if f.get("needle", "-") == "-" else f["needle"].count(",") + 1)] += 1
+        for part in f.get("res", "").split("|"):
+            bits = part.split(";")
+            if len(bits) == 5:
+                dist["outcome"][bits[0] + (":panic" if bits[1].startswith("panic") else ":none" if bits[1] == "none" else ":match")] += 1
+    ctx.coverage["input_distribution"] = {k: dict(v) for k, v in dist.items()}
     nontriv = len([k for k in keys if k[3] != "-" and k[4] != "-"])
     ctx.coverage.update(
         evaluations=n_m * 6 * 6 + n_x, distinct_nontrivial=nontriv,
